@@ -409,3 +409,19 @@ Lemma tables_nonempty :
   (8 <= length runtime_files /\ 20 <= length runtime_imports /\ 100 <= length import_sites
    /\ 20 <= length template_imports /\ 200 <= length stdlib_names)%nat.
 Proof. vm_compute. repeat split; repeat constructor. Qed.
+
+(* histories: whatever the core directory held before (fs arbitrary: stale, edited, truncated or missing files),
+   after emit_core wrote its files on top of it every runtime destination holds the shipped bytes *)
+Lemma lookup_path_app : forall B (a b : list (modpath * B)) k,
+  lookup_path k (a ++ b) = match lookup_path k a with Some v => Some v | None => lookup_path k b end.
+Proof.
+  intros B a b k. induction a as [|[k' v] a IH]; simpl; [reflexivity|].
+  destruct (modpath_eqb k k'); [reflexivity | exact IH].
+Qed.
+
+Theorem core_verbatim_history : forall B (src : list str * str -> B) (fs : list (modpath * B)) m stem dst,
+  In (m, stem, dst) runtime_files ->
+  lookup_path dst (emit_core runtime_files src ++ fs) = Some (src (m, stem)).
+Proof.
+  intros B src fs m stem dst H. rewrite lookup_path_app, (core_verbatim B src m stem dst H). reflexivity.
+Qed.
